@@ -901,6 +901,84 @@ func (rs *RelationService) Insert(tableName string, cols []string, vals []interf
 	return walLogs, nil
 }
 
+// ValidateInsert reports the error Insert would return for this row because
+// of the row itself (unknown table, column count, value types, row size),
+// without storing anything.
+func (rs *RelationService) ValidateInsert(tableName string, cols []string, vals []interface{}) error {
+	if _, err := rs.getRelationFileOffset(tableName); err != nil {
+		return err
+	}
+
+	schema, err := rs.getRelationSchema(tableName)
+	if err != nil {
+		return err
+	}
+
+	if len(cols) == 0 {
+		for _, fd := range schema.Fields {
+			cols = append(cols, fd.Name)
+		}
+	}
+
+	if len(cols) != len(vals) {
+		return ErrColCountMismatch
+	}
+
+	tuple := Tuple{
+		Relation: schema,
+		Vals:     make(map[string]interface{}, len(cols)),
+	}
+	for i, col := range cols {
+		tuple.Vals[col] = vals[i]
+	}
+
+	buf, err := tuple.Encode()
+	if err != nil {
+		return err
+	}
+
+	return checkRowSizeLimit(buf.Bytes())
+}
+
+// ValidateUpdate reports the error Update would return for this row because
+// of the new values (value types, row size), without changing anything.
+func (rs *RelationService) ValidateUpdate(tableName string, rowID uint32, cols []string, updateSrc []interface{}) error {
+	fileOffset, err := rs.getRelationFileOffset(tableName)
+	if err != nil {
+		return err
+	}
+
+	r, err := rs.getRelationSchema(tableName)
+	if err != nil {
+		return err
+	}
+
+	bt := BTree{store: rs.fs, rootOffset: uint64(fileOffset)}
+
+	cell, err := bt.findCell(rowID)
+	if err != nil || cell == nil {
+		return err
+	}
+
+	tuple := Tuple{
+		Relation: r,
+		Vals:     make(map[string]interface{}),
+	}
+	if err := tuple.Decode(bytes.NewBuffer(cell.valueBytes)); err != nil {
+		return err
+	}
+	for i, col := range cols {
+		tuple.Vals[col] = updateSrc[i]
+	}
+
+	buf, err := tuple.Encode()
+	if err != nil {
+		return err
+	}
+
+	return checkRowSizeLimit(buf.Bytes())
+}
+
 // todo combine with update page table code?
 func (rs *RelationService) Update(tableName string, rowID uint32, cols []string, updateSrc []interface{}) (WALBatch, error) {
 	var walLogs WALBatch
